@@ -35,6 +35,8 @@ pub struct YieldStore {
     updates_seen: usize,
     /// every update call as it reaches the store itself: (credential id, counter)
     writes: Vec<(Vec<u8>, Option<u32>)>,
+    /// listing order of lookups: new credentials before the pre-loaded ones (otherwise after them)
+    new_first: bool,
 }
 
 #[async_trait::async_trait]
@@ -42,10 +44,12 @@ impl CredentialStore for YieldStore {
     type PasskeyItem = Passkey;
     async fn find_credentials(&self, ids: Option<&[PublicKeyCredentialDescriptor]>, rp_id: &str) -> Result<Vec<Passkey>, StatusCode> {
         YieldN(self.yields).await;
-        // the map lists in hash order; the double lists by id (the pre-loaded "c19-held-..." ids sort before the random ids
-        // of new credentials only by chance, so they are put first explicitly): the same schedule gives the same run
+        // the map lists in hash order, which differs from process to process; the double lists by id, the pre-loaded
+        // "c19-held-..." credentials before or after the new ones depending on the configuration: the same configuration and
+        // schedule give the same run, and both orders occur
         let mut v = self.inner.find_credentials(ids, rp_id).await?;
-        v.sort_by(|a, b| (!a.credential_id.starts_with(b"c19-held-"), a.credential_id.to_vec()).cmp(&(!b.credential_id.starts_with(b"c19-held-"), b.credential_id.to_vec())));
+        let nf = self.new_first;
+        v.sort_by(|a, b| (a.credential_id.starts_with(b"c19-held-") == nf, a.credential_id.to_vec()).cmp(&(b.credential_id.starts_with(b"c19-held-") == nf, b.credential_id.to_vec())));
         Ok(v)
     }
     async fn save_credential(&mut self, cred: Passkey, user: PublicKeyCredentialUserEntity, rp: PublicKeyCredentialRpEntity, options: get_assertion::Options) -> Result<(), StatusCode> {
@@ -342,7 +346,7 @@ fn initial_store(cfg: &Config) -> YieldStore {
         let pk = make_passkey(60 + k as u64, RP, &held_id(k), Some(b"c19-user-held"), Some(cfg.counter), None);
         m.insert(pk.credential_id.to_vec(), pk);
     }
-    YieldStore { inner: m, yields: cfg.store_yields, disc: cfg.disc, fail_update: cfg.fail_update.map(|(k, c)| (k as usize, c)), updates_seen: 0, writes: vec![] }
+    YieldStore { inner: m, yields: cfg.store_yields, disc: cfg.disc, fail_update: cfg.fail_update.map(|(k, c)| (k as usize, c)), updates_seen: 0, writes: vec![], new_first: (cfg.store_yields + cfg.uv_yields.iter().sum::<usize>()) % 2 == 1 }
 }
 
 /// run one schedule: at step i poll the `prefix[i]`-th runnable task (0 beyond the prefix)
